@@ -241,15 +241,19 @@ def syncBody : Stmt :=
   | .seq _ (.seq _ (.seq (.loop b) _)) => b
   | _ => .skip
 
+/-- "the labels of `evs` take `.sync k q a` to `f k q a`", for every operation `k` (of the right blocking mode) -/
+def SyncRun (nk : Nat) (b : Int) (evs : List Event) (f : K → Nat → Nat → Pc) : Prop :=
+  ∀ k q a, L.addr nk = some a → k.blocking = decide (b ≠ 0) →
+    lrun (.sync k q a) (evs.filterMap (absEv L)) = some (f k q a)
+
 /-- result of the loop: what the caller of `sync_next` needs -/
 def SyncPost (nk : Nat) (b : Int) (env : Env) (out : Out) (evs : List Event) : Prop :=
   (∀ v ∈ out.inp, Typed L v) ∧ (∀ m, m ≠ .glob "&attempt" → out.env.priv m = env.priv m) ∧
   (∃ c', out.env.priv (.glob "&attempt") = some (.int c')) ∧
-  ∀ k q a, L.addr nk = some a → k.blocking = decide (b ≠ 0) →
-    ∃ p', lrun (.sync k q a) (evs.filterMap (absEv L)) = some p' ∧
-      (((out.ctl = .blocked ∨ out.ctl = .fuel) ∧ p' = .sync k q a) ∨
-       (out.ctl = .ret (some (.int (-1))) ∧ b = 0 ∧ p' = syncWbPc k q a) ∨
-       (∃ v x, out.ctl = .normal ∧ out.env.vars "next" = some v ∧ dec L v = some x ∧ x ≠ 0 ∧ p' = syncGotPc k q a x))
+  (((out.ctl = .blocked ∨ out.ctl = .fuel) ∧ SyncRun L nk b evs fun k q a => .sync k q a) ∨
+   (out.ctl = .ret (some (.int (-1))) ∧ b = 0 ∧ SyncRun L nk b evs syncWbPc) ∨
+   (∃ v x, out.ctl = .normal ∧ out.env.vars "next" = some v ∧ dec L v = some x ∧ x ≠ 0 ∧
+      SyncRun L nk b evs fun k q a => syncGotPc k q a x))
 
 /-- one iteration of the loop body -/
 theorem syncBody_exec (fuel nk : Nat) (b c : Int) (env : Env) (inp : List Val)
@@ -285,16 +289,214 @@ theorem syncBody_exec (fuel nk : Nat) (b c : Int) (env : Env) (inp : List Val)
         exact fun v hv => Or.inr hv
       · rcases hctl with rfl | rfl
         · simp [hb, h1, h2, hp]
-          trace_state
-          sorry
+          exact ⟨fun m h h' => absurd h' h, fun v hv => Or.inr (hsub v hv), by simpa using hf⟩
         · simp [hb, h1, h2, hp]
-          trace_state
-          sorry
+          exact ⟨fun m h h' => absurd h' h, fun v hv => Or.inr (hsub v hv), by simpa using hf⟩
     · refine ⟨⟨[.ld (.field (.obj nk) "next") v 1], (env.setVar "_t2" v).setVar "next" v, rest, .brk⟩,
           ?_, fun _ _ => rfl, ⟨c, hp⟩,
           by simp +contextual, Or.inr (Or.inl ⟨v, rfl, hv, rfl, rfl, by simp [Env.setVar]⟩)⟩
       simp [syncBody, Gen.Src.«___cds_wfcq_node_sync_next», block, exec, eval, evalArgs, execPrim, asLoc, bind,
         Except.bind, h1, Env.setVar, setDst, evalBin, boolV, Val.truthy, hv]
 
+theorem sync_loop (fuel nk : Nat) (b : Int) (n : Nat) :
+    ∀ (env : Env) (inp : List Val) (acc : List Event) (c : Int),
+      env.vars "node" = some (.ptr (.obj nk)) → env.vars "blocking" = some (.int b) →
+      env.priv (.glob "&attempt") = some (.int c) → (∀ v ∈ inp, Typed L v) →
+      ∃ out evs, iterate (fun e i => exec fuel syncBody e i) n env inp acc = .ok out ∧ out.events = acc ++ evs ∧
+        SyncPost L nk b env out evs := by
+  induction n with
+  | zero =>
+    intro env inp acc c h1 h2 hp hwt
+    exact ⟨_, [], rfl, by simp, hwt, fun _ _ => rfl, ⟨c, hp⟩, Or.inl ⟨Or.inr rfl, fun k q a ha hk => rfl⟩⟩
+  | succ n ih =>
+    intro env inp acc c h1 h2 hp hwt
+    obtain ⟨o, ho, hpriv, ⟨c', hc'⟩, hsub, hcase⟩ := syncBody_exec L fuel nk b c env inp h1 h2 hp
+    have hwt' : ∀ v ∈ o.inp, Typed L v := fun v hv => hwt v (hsub v hv)
+    simp only [iterate, ho, bind, Except.bind]
+    rcases hcase with ⟨rfl, hev, hctl⟩ | ⟨v, hhd, hv, hev, hctl, hnext⟩ | ⟨evs, hhd, hev, hf, hb⟩
+    · simp only [hctl]
+      exact ⟨_, [], rfl, by simp [hev], hwt', hpriv, ⟨c', hc'⟩, Or.inl ⟨Or.inl rfl, fun k q a ha hk => rfl⟩⟩
+    · simp only [hctl]
+      obtain ⟨x, hx⟩ := hwt v (by cases inp <;> simp_all)
+      have hx0 : x ≠ 0 := fun e => hv (dec_eq_zero L (e ▸ hx))
+      refine ⟨_, o.events, rfl, rfl, hwt', hpriv, ⟨c', hc'⟩, Or.inr (Or.inr ⟨v, x, rfl, hnext, hx, hx0, ?_⟩)⟩
+      intro k q a ha hk
+      simp [hev, absEv, decNext, decTail, hx, ha, List.filterMap_cons, lrun, lstep, hx0]
+    · have hstay : ∀ a : Nat, L.addr nk = some a → ∀ rest : List Event,
+          (.ld (.field (.obj nk) "next") (.int 0) 1 :: (evs ++ rest)).filterMap (absEv L) =
+            .ldNext a 0 :: rest.filterMap (absEv L) := by
+        intro a ha rest
+        simp [absEv, decNext, decTail, dec, ha, List.filterMap_cons, List.filterMap_append, hf]
+      rcases hb with ⟨hb0, hctl⟩ | ⟨hb0, hctl | ⟨hctl, h1', h2'⟩⟩
+      · simp only [hctl]
+        refine ⟨_, o.events, rfl, rfl, hwt', hpriv, ⟨c', hc'⟩, Or.inr (Or.inl ⟨rfl, hb0, ?_⟩)⟩
+        intro k q a ha hk
+        have := hstay a ha []
+        simp only [List.append_nil] at this
+        simp [hev, this, lrun, lstep, hk, hb0]
+      · simp only [hctl]
+        refine ⟨_, o.events, rfl, rfl, hwt', hpriv, ⟨c', hc'⟩, Or.inl ⟨Or.inl rfl, ?_⟩⟩
+        intro k q a ha hk
+        have := hstay a ha []
+        simp only [List.append_nil] at this
+        simp [hev, this, lrun, lstep, hk, hb0]
+      · simp only [hctl]
+        obtain ⟨out, evs', hit, hevs, hwt2, hpriv2, hc2, hpost⟩ := ih o.env o.inp (acc ++ o.events) c' h1' h2' hc' hwt'
+        have hpre : ∀ f, SyncRun L nk b evs' f → SyncRun L nk b (o.events ++ evs') f := by
+          intro f hf' k q a ha hk
+          rw [hev, List.cons_append, hstay a ha evs']
+          simp [lrun, lstep, hk, hb0, hf' k q a ha hk]
+        refine ⟨out, o.events ++ evs', hit, by simp [hevs], hwt2, ?_, hc2, ?_⟩
+        · intro m hm; rw [hpriv2 m hm, hpriv m hm]
+        · rcases hpost with ⟨hc, hr⟩ | ⟨hc, hb', hr⟩ | ⟨v, x, hc, hn, hx, hx0, hr⟩
+          · exact Or.inl ⟨hc, hpre _ hr⟩
+          · exact Or.inr (Or.inl ⟨hc, hb', hpre _ hr⟩)
+          · exact Or.inr (Or.inr ⟨v, x, hc, hn, hx, hx0, hpre _ hr⟩)
+
+/-- what a caller of `___cds_wfcq_node_sync_next(node = obj nk, blocking = b)` gets -/
+def SyncRes (nk : Nat) (b : Int) (env : Env) (out : Out) : Prop :=
+  (∀ v ∈ out.inp, Typed L v) ∧ (∀ m, m ≠ .glob "&attempt" → out.env.priv m = env.priv m) ∧
+  (((out.ctl = .blocked ∨ out.ctl = .fuel) ∧ SyncRun L nk b out.events fun k q a => .sync k q a) ∨
+   (out.ctl = .ret (some (.int (-1))) ∧ b = 0 ∧ SyncRun L nk b out.events syncWbPc) ∨
+   (∃ v x, out.ctl = .ret (some v) ∧ dec L v = some x ∧ x ≠ 0 ∧
+      SyncRun L nk b out.events fun k q a => syncGotPc k q a x))
+
+theorem sync_next_run {fuel : Nat} {env : Env} {inp : List Val} {r : Except String Out}
+    (hE : exec fuel Gen.Src.«___cds_wfcq_node_sync_next» env inp = r) (nk : Nat) (b : Int)
+    (h1 : env.vars "node" = some (.ptr (.obj nk))) (h2 : env.vars "blocking" = some (.int b))
+    (hwt : ∀ v ∈ inp, Typed L v) : ∃ out, r = .ok out ∧ SyncRes L nk b env out := by
+  subst hE
+  rw [show Gen.Src.«___cds_wfcq_node_sync_next» = Stmt.seq _ (.seq _ (.seq (.loop syncBody) _)) from rfl]
+  simp only [exec, eval, asLoc, bind, Except.bind, Env.setVar, Env.setPriv, if_true, block]
+  obtain ⟨out, evs, hit, hevs, hwt2, hpriv2, hc2, hpost⟩ := sync_loop L fuel nk b fuel
+    { vars := fun y => if y = "_t1" then some (Val.int 0) else env.vars y,
+      priv := fun m => if m = Loc.glob "&attempt" then some (.int 0) else env.priv m } inp [] 0
+    (by simp [h1]) (by simp [h2]) (by simp) hwt
+  simp only [hit]
+  have hpriv : ∀ m, m ≠ .glob "&attempt" → out.env.priv m = env.priv m := by
+    intro m hm; rw [hpriv2 m hm]; simp [hm]
+  simp only [List.nil_append] at hevs
+  rcases hpost with ⟨hc, hr⟩ | ⟨hc, hb', hr⟩ | ⟨v, x, hc, hn, hx, hx0, hr⟩
+  · rcases hc with hc | hc <;> simp only [hc] <;>
+      exact ⟨_, rfl, hwt2, hpriv, Or.inl ⟨by simp [hc], by simpa [hevs] using hr⟩⟩
+  · simp only [hc]
+    exact ⟨_, rfl, hwt2, hpriv, Or.inr (Or.inl ⟨rfl, hb', by simpa [hevs] using hr⟩)⟩
+  · simp only [hc, hn]
+    exact ⟨_, rfl, hwt2, hpriv, Or.inr (Or.inr ⟨v, x, rfl, hx, hx0, by simpa [hevs] using hr⟩)⟩
+
 end WfcqR
+
+/-! # rculfqueue: `_cds_lfq_enqueue_rcu` ⊑ thread-local projection of `Lfq/Model.lean`
+
+Layout: the queue is the location `L.q` (`q->head`, `q->tail` its fields); a node pointer `Val.ptr l` is the L2 node
+`addr l` (`l` = `Loc.obj k` for a user node, `&dummy->parent` for a dummy); NULL = `Val.int 0` ↦ `0`.
+`absEv`: load of `q->tail` ↦ `ldTail`, cmpxchg on `l->next` ↦ `casNext`, cmpxchg on `q->tail` ↦ `casTail`,
+load of `q->head` ↦ `ldHead`; the `cmm_smp_mb()` of `cmm_emit_legacy_smp_mb` (no L2 label: every L2 step is an SC
+access, `Lfq/Model.lean` header) ↦ none; everything else ↦ `other` (never accepted). -/
+namespace LfqR
+open UrcuVerif.Lfq LfqL
+
+structure Layout where
+  q : Loc
+  addr : Loc → Option Nat
+  addr_ne0 : ∀ l, addr l ≠ some 0
+  addr_inj : ∀ l l' a, addr l = some a → addr l' = some a → l = l'
+
+variable (L : Layout)
+
+def dec : Val → Option Nat
+  | .int n => if n = 0 then some 0 else none
+  | .ptr l => L.addr l
+
+def absEv : Event → Option LLabel
+  | .ld l v _ =>
+    if l = .field L.q "tail" then
+      match dec L v with
+      | some x => some (.ldTail x)
+      | none => some .other
+    else if l = .field L.q "head" then
+      match dec L v with
+      | some x => some (.ldHead x)
+      | none => some .other
+    else some .other
+  | .cas l e n old _ _ =>
+    if l = .field L.q "tail" then
+      match dec L e, dec L n, dec L old with
+      | some e, some n, some o => some (.casTail e n o)
+      | _, _, _ => some .other
+    else
+      match l with
+      | .field l' f =>
+        if f = "next" then
+          match L.addr l', dec L e, dec L n, dec L old with
+          | some a, some 0, some n, some o => some (.casNext a n o)
+          | _, _, _, _ => some .other
+        else some .other
+      | _ => some .other
+  | .st .. | .xchg .. | .rmw .. => some .other
+  | .fence _ => none
+  | .ext .. => none
+
+def Typed (v : Val) : Prop := ∃ x, dec L v = some x
+def IsObj (v : Val) : Prop := ∃ l a, v = .ptr l ∧ L.addr l = some a
+
+theorem dec_eq_zero {v : Val} (h : dec L v = some 0) : v = .int 0 := by
+  unfold dec at h
+  split at h
+  · split at h <;> simp_all
+  · exact absurd h (L.addr_ne0 _)
+
+/-- typing of the oracle of `_cds_lfq_enqueue_rcu`: per iteration, the value of `q->tail` (a node pointer, it is
+dereferenced), the value `cmpxchg(&tail->next)` returns, the value `cmpxchg(&q->tail)` returns (NULL or node pointers) -/
+def EnqInp : List Val → Prop
+  | [] => True
+  | [t] => IsObj L t
+  | [t, n] => IsObj L t ∧ Typed L n
+  | t :: n :: a :: rest => IsObj L t ∧ Typed L n ∧ Typed L a ∧ EnqInp rest
+
+/-- the body of the retry loop of the generated `_cds_lfq_enqueue_rcu` (extracted, not copied) -/
+def enqBody : Stmt :=
+  match Gen.Src.«_cds_lfq_enqueue_rcu» with
+  | .loop b => b
+  | _ => .skip
+
+def mbEv (mbv : Int) : List Event := if mbv = 0 then [] else [.fence .mb]
+
+theorem enqBody_exec (fuel : Nat) (env : Env) (inp : List Val) (nl : Loc) (mbv : Int)
+    (h1 : env.vars "q" = some (.ptr L.q)) (h2 : env.vars "node" = some (.ptr nl))
+    (hcfg : env.priv (.glob "CONFIG_RCU_EMIT_LEGACY_MB") = some (.int mbv)) (hwt : EnqInp L inp) :
+    ∃ o, exec fuel enqBody env inp = .ok o ∧ o.env.priv = env.priv ∧
+      ((inp = [] ∧ o.events = [] ∧ o.ctl = .blocked) ∨
+       (∃ tl, inp = [.ptr tl] ∧ o.events = .ld (.field L.q "tail") (.ptr tl) 1 :: mbEv mbv ∧ o.ctl = .blocked) ∨
+       (∃ tl nv, inp = [.ptr tl, nv] ∧ o.ctl = .blocked ∧
+          o.events = .ld (.field L.q "tail") (.ptr tl) 1 :: (mbEv mbv ++ [.cas (.field tl "next") (.int 0) (.ptr nl) nv 5 5])) ∨
+       (∃ tl a rest, inp = .ptr tl :: .int 0 :: a :: rest ∧ o.ctl = .ret none ∧ o.inp = rest ∧
+          o.events = .ld (.field L.q "tail") (.ptr tl) 1 :: (mbEv mbv ++ [.cas (.field tl "next") (.int 0) (.ptr nl) (.int 0) 5 5,
+            .cas (.field L.q "tail") (.ptr tl) (.ptr nl) a 5 5])) ∨
+       (∃ tl nv a rest, inp = .ptr tl :: nv :: a :: rest ∧ nv ≠ .int 0 ∧ o.ctl = .cont ∧ o.inp = rest ∧
+          o.env.vars "q" = some (.ptr L.q) ∧ o.env.vars "node" = some (.ptr nl) ∧
+          o.events = .ld (.field L.q "tail") (.ptr tl) 1 :: (mbEv mbv ++ [.cas (.field tl "next") (.int 0) (.ptr nl) nv 5 5,
+            .cas (.field L.q "tail") (.ptr tl) nv a 5 5]))) := by
+  rcases inp with _ | ⟨t, _ | ⟨nv, _ | ⟨a, rest⟩⟩⟩
+  · exact ⟨⟨[], env, [], .blocked⟩, by simp [enqBody, Gen.Src.«_cds_lfq_enqueue_rcu», block, exec, eval, evalArgs,
+      execPrim, asLoc, bind, Except.bind, h1], rfl, Or.inl ⟨rfl, rfl, rfl⟩⟩
+  · obtain ⟨tl, ta, rfl, hta⟩ := hwt
+    by_cases hmb : mbv = 0 <;>
+      simp [enqBody, Gen.Src.«_cds_lfq_enqueue_rcu», block, exec, eval, evalArgs, execPrim, asLoc, bind, Except.bind,
+        h1, h2, hcfg, Env.setVar, setDst, Val.truthy, evalBin, boolV, mbEv, hmb]
+  · obtain ⟨⟨tl, ta, rfl, hta⟩, -⟩ := hwt
+    by_cases hmb : mbv = 0 <;>
+      simp [enqBody, Gen.Src.«_cds_lfq_enqueue_rcu», block, exec, eval, evalArgs, execPrim, asLoc, bind, Except.bind,
+        h1, h2, hcfg, Env.setVar, setDst, Val.truthy, evalBin, boolV, mbEv, hmb]
+  · obtain ⟨⟨tl, ta, rfl, hta⟩, -, -, -⟩ := hwt
+    by_cases hnv : nv = .int 0
+    · subst hnv
+      by_cases hmb : mbv = 0 <;>
+        simp [enqBody, Gen.Src.«_cds_lfq_enqueue_rcu», block, exec, eval, evalArgs, execPrim, asLoc, bind, Except.bind,
+        h1, h2, hcfg, Env.setVar, setDst, Val.truthy, evalBin, boolV, mbEv, hmb] <;> exact ⟨_, _, _, ⟨rfl, rfl, rfl⟩, rfl, rfl, rfl⟩
+    · by_cases hmb : mbv = 0 <;>
+        simp [enqBody, Gen.Src.«_cds_lfq_enqueue_rcu», block, exec, eval, evalArgs, execPrim, asLoc, bind, Except.bind,
+        h1, h2, hcfg, Env.setVar, setDst, Val.truthy, evalBin, boolV, mbEv, hmb, hnv] <;> exact ⟨_, _, _, _, ⟨rfl, rfl, rfl, rfl⟩, hnv, rfl, rfl, ⟨rfl, rfl⟩, rfl, rfl, rfl⟩
+
+end LfqR
 end UrcuVerif.Src.Queue
